@@ -85,3 +85,54 @@ class budget(object):
             self.steps = _S.steps
             self.tripped = _S.tripped
         return False
+
+
+# ---------------------------------------------------------------------------------------------------
+# Virtual-time budget.  The JUMP budget only sees Python-level loops; a loop inside a C extension that
+# the library calls (catastrophic backtracking in ``re`` is the realistic case) makes no jumps.  For
+# those the verdict is taken on *process CPU time in user mode* (ITIMER_VIRTUAL), which - unlike wall
+# clock - does not advance while the machine is busy with other work.  Limits are thousands of times
+# the CPU cost of any valid input of the same size.
+import signal
+
+
+class CpuBudgetExceeded(BaseException):
+    def __init__(self, seconds, where):
+        BaseException.__init__(self, "CPU-time budget of %.1f s exceeded in %s" % (seconds, where))
+        self.seconds = seconds
+        self.where = where
+
+
+class cpu_budget(object):
+    """with cpu_budget(seconds): ...   raises CpuBudgetExceeded (repeatedly, every 50 ms of further CPU time,
+    so that a bare ``except:`` in the library cannot swallow it) until the block is left."""
+
+    def __init__(self, seconds):
+        self.seconds = seconds
+        self.armed = False
+
+    def _handler(self, signum, frame):
+        if not self.armed:
+            return
+        where = "?"
+        f = frame
+        while f is not None:
+            fn = f.f_code.co_filename
+            if fn.startswith(_prefix):
+                where = "%s:%s" % (os.path.basename(fn), f.f_code.co_qualname)
+                break
+            f = f.f_back
+        signal.setitimer(signal.ITIMER_VIRTUAL, 0.05)
+        raise CpuBudgetExceeded(self.seconds, where)
+
+    def __enter__(self):
+        self.armed = True
+        self._old = signal.signal(signal.SIGVTALRM, self._handler)
+        signal.setitimer(signal.ITIMER_VIRTUAL, self.seconds)
+        return self
+
+    def __exit__(self, et, ev, tb):
+        self.armed = False
+        signal.setitimer(signal.ITIMER_VIRTUAL, 0)
+        signal.signal(signal.SIGVTALRM, self._old if self._old is not None else signal.SIG_DFL)
+        return False
